@@ -63,7 +63,7 @@ Theorem C06_spec_longestprefixof : forall (V : Type) s (m : smap V), sorted m ->
   match s_longestprefix s m with
   | Some (k, v) =>
       In (k, v) m /\ is_prefix k s = true /\
-      forall k' v', In (k', v') m -> is_prefix k' s = true -> length k' <= length k
+      forall k' v', In (k', v') m -> is_prefix k' s = true -> (length k' <= length k)%nat
   | None => forall k' v', In (k', v') m -> is_prefix k' s = false
   end.
 Proof. intros. now apply s_longestprefix_spec. Qed.
@@ -72,7 +72,7 @@ Proof. intros. now apply s_longestprefix_spec. Qed.
 Theorem C06_spec_match : forall (V : Type) pat (m : smap V) k v,
   In (k, v) (s_match pat m) <->
   In (k, v) m /\ length pat = length k /\
-  forall i, i < length pat -> nth i pat 0%N = star \/ nth i pat 0%N = nth i k 0%N.
+  forall i, (i < length pat)%nat -> nth i pat 0%N = star \/ nth i pat 0%N = nth i k 0%N.
 Proof. intros. apply s_match_spec. Qed.
 
 (** Floor / Ceiling: greatest held key <= k / least held key >= k *)
